@@ -1149,6 +1149,9 @@ func TrickyShapes() []*Shape {
 		scope("Expr", obj("Expr", p("e", &Shape{Kind: KOneOfStr, Disc: "_type", Members: []*Member{{KeyS: "lit", T: ref("Lit")}, {KeyS: "neg", T: ref("Expr")}}})), obj("Lit", p("v", &Shape{Kind: KInt}))),
 		// an inner scope shadows an outer object ID
 		scope("Outer", obj("Outer", p("x", ref("Leaf")), p("inner", scope("Inner", obj("Inner", p("y", ref("Leaf"))), obj("Leaf", p("v", &Shape{Kind: KInt}))))), obj("Leaf", p("v", str()))),
+		// a struct-mapped root whose map[string]any field holds a recursive map-based object
+		scope("Holder", &Shape{Kind: KObject, ID: "Holder", Struct: "P11", Props: []*Prop{p("m", ref("Node")), p("n", &Shape{Kind: KInt})}},
+			obj("Node", p("v", &Shape{Kind: KInt}), p("next", ref("Node")))),
 		// two-property recursive object: the shorthand must not apply
 		scope("N", obj("N", p("v", &Shape{Kind: KInt}), p("next", ref("N")))),
 	}
